@@ -35,6 +35,7 @@ ClkMatches(k, logged) ==
   /\ logged.c  # -1 => k.c = logged.c
   /\ (logged.e # -1 \/ logged.de # -1) => k.de = logged.de
   /\ (logged.c # -1 \/ logged.dc # -1) => k.dc = logged.dc
+  /\ (logged.e = -1 /\ logged.de = -1 /\ logged.c = -1 /\ logged.dc = -1) => TRUE
 
 (* the projected real state after the step equals the specification's state *)
 StateMatches(e) ==
